@@ -368,6 +368,10 @@ def gen_spec(tape, cfg: dict[str, Any]) -> dict:
                 sc.append(("work",))
             if do_collect:
                 sc.append(("collect", list(accepts[n]), None))
+                if cfg.get("p_collect_then_fail") and tape.chance(cfg["p_collect_then_fail"], 100, "collect-then-fail?"):
+                    # the body raises AFTER it has called collect_events and found the set incomplete: its result carries the
+                    # collected event and the failure together
+                    sc[-1] = sc[-1] + (("fail", tape.choice(cfg["exc_pool"], "cf.exc"), tape.rng_int(1, 2, "cf.k")),)
             if tape.chance(cfg["p_fail"], 100, "fail?"):
                 sc.append(("fail", tape.choice(cfg["exc_pool"], "exc"),
                            tape.rng_int(1, 3, "fail.k")))
@@ -833,12 +837,21 @@ class EngineWorld:
             self.fault("step-baseexception")
             raise SimBaseExc(f"{name}/{in_uid}")
         elif op == "collect":
-            _, tnames, buf = act
+            _, tnames, buf = act[:3]
             got = ctx.collect_events(ev, [EV.TYPES[t] for t in tnames], buffer_id=buf)
             self.trace.log("collect", step=name, uid=in_uid, inv=rec["inv"], buf=buf, run=rec["run"],
                            got=[uid_of(x) for x in got] if got is not None else None,
                            gtypes=[ev_desc(x) for x in got] if got is not None else None)
             if got is None:
+                if len(act) > 3:
+                    _, exc, k = act[3]
+                    key = (name, _hashable(in_uid), "after-collect")
+                    c = self.fail_counts.get(key, 0)
+                    if c < k:
+                        self.fail_counts[key] = c + 1
+                        self.fault("step-failure")
+                        self.probe("raised-after-buffering-collect")
+                        raise EV.make_exc(exc, f"{name}/{in_uid}/f{c}")
                 return ("buffered", None), None
             rec["collected"] = got
         elif op == "set":
